@@ -11,7 +11,8 @@
    well formed, index arrays as long as the edge table" — cell VALUES are arbitrary.
    [pinned] is the pre-fix code (380c75d), kept only for the two historical refutations. *)
 From Coq Require Import List ZArith.
-From TskVerif Require Import Base.Common C02.Fl C02.Model C02.Spec C02.Sound C02.SweepComplete C02.Refuted C02.Top C02.BuildIndex C02.Reach C02.ErrClass.
+Import ListNotations.
+From TskVerif Require Import Base.Common C02.Fl C02.Model C02.Spec C02.Sound C02.SweepComplete C02.Refuted C02.Top C02.BuildIndex C02.Reach C02.ErrClass C02.RowCode C02.Wrapper C02.BridgeC13.
 Open Scope Z_scope.
 
 (* (a) memory safety: whatever the cell values, the gate never indexes out of bounds — every id
@@ -127,6 +128,61 @@ Proof. exact err_inds. Qed.
 Theorem error_index_trees : forall t, WF t -> SeqlenOK t -> RowsValid t -> ~ TreesOK t ->
   exists c, In c (index_codes ++ tree_codes) /\ check t = Err c.
 Proof. exact err_trees. Qed.
+
+(* (h') the individual code: for the checks whose loop carries no state the error is the first
+   failing condition (in the order of the C code) of the FIRST bad row, given by the monad-free
+   functions node_row_code / site_row_code / mig_row_code / ind_cell_code.  FULL for nodes, sites,
+   migrations, individuals (sequence length and offsets are single codes, error_seqlen /
+   error_offsets); edges, mutations and the tree sweep stay at group granularity (h). *)
+Theorem exact_node_error : forall t, WF t -> forall k c, SeqlenOK t -> OffsetsOK t -> 0 <= k < num_nodes t ->
+  (forall i, 0 <= i < k -> node_row_code t i = None) -> node_row_code t k = Some c -> check t = Err c.
+Proof. exact RowCode.exact_node_error. Qed.
+Theorem exact_site_error : forall t, WF t -> forall k c, SeqlenOK t -> OffsetsOK t -> NodesOK t -> EdgesOK t ->
+  0 <= k < num_sites t ->
+  (forall i, 0 <= i < k -> site_row_code t i = None) -> site_row_code t k = Some c -> check t = Err c.
+Proof. exact RowCode.exact_site_error. Qed.
+Theorem exact_migration_error : forall t, WF t -> forall k c, SeqlenOK t -> OffsetsOK t -> NodesOK t -> EdgesOK t ->
+  SitesOK t -> MutsOK t -> 0 <= k < num_migrations t ->
+  (forall i, 0 <= i < k -> mig_row_code t i = None) -> mig_row_code t k = Some c -> check t = Err c.
+Proof. exact RowCode.exact_migration_error. Qed.
+Theorem exact_individual_error : forall t, WF t -> forall J K c, SeqlenOK t -> OffsetsOK t -> NodesOK t -> EdgesOK t ->
+  SitesOK t -> MutsOK t -> MigsOK t -> 0 <= J < nind t ->
+  zat (ind_parents_offset t) J <= K < zat (ind_parents_offset t) (J + 1) ->
+  (forall j k, 0 <= j < J -> zat (ind_parents_offset t) j <= k < zat (ind_parents_offset t) (j + 1) ->
+     ind_cell_code t j k = None) ->
+  (forall k, zat (ind_parents_offset t) J <= k < K -> ind_cell_code t J k = None) ->
+  ind_cell_code t J K = Some c -> check t = Err c.
+Proof. exact RowCode.exact_individual_error. Qed.
+
+(* (i) the Python wrapper TableCollection.tree_sequence() = tree_sequence_gate (has_index() ? gate :
+   build_index; gate): a supplied (or stale) index is never silently replaced — the verdict is the
+   gate's on THAT index, an inconsistent one is rejected — and on indexed tables tree_sequence(),
+   TreeSequence.load_tables() and tskit.load agree; on unindexed tables tree_sequence() is
+   load_tables(build_indexes=True).  FULL. *)
+Theorem tree_sequence_keeps_index : forall t i, idx t = Some i -> tree_sequence_gate t = check t.
+Proof. exact tree_sequence_keeps_index_lemma. Qed.
+Theorem tree_sequence_rejects_bad_index : forall t i n, WF t -> idx t = Some i -> ~ IndexOK t ->
+  tree_sequence_gate t <> Ok n.
+Proof. exact tree_sequence_rejects_bad_index_lemma. Qed.
+Theorem paths_agree_indexed : forall t i, idx t = Some i ->
+  tree_sequence_gate t = load_gate t /\ load_tables_gate false t = load_gate t.
+Proof. exact paths_agree_indexed_lemma. Qed.
+Theorem tree_sequence_unindexed : forall t, idx t = None -> tree_sequence_gate t = load_tables_gate true t.
+Proof. exact tree_sequence_unindexed_lemma. Qed.
+
+(* (j) bridge to C13: columns that are (images of) the asdict arrays of C13 tables satisfying C13's
+   invariant have the per-table shape C02's WF asks for (cites C13.FacadeProofs.asdict_has_C02_shape) *)
+Theorem c13_backs_shape :
+  forall (t : tables) (f : Z -> Fl) dn tn de te dm tm dg tg di ti zt zl zr zmt zgl zgr zgt,
+    node_time t = map f zt -> backed dn tn [zt; node_pop t; node_ind t] ->
+    edge_left t = map f zl -> edge_right t = map f zr -> backed de te [zl; zr; edge_parent t; edge_child t] ->
+    mut_time t = map f zmt -> backed dm tm [mut_site t; mut_node t; mut_parent t; zmt] ->
+    mig_left t = map f zgl -> mig_right t = map f zgr -> mig_time t = map f zgt ->
+    backed dg tg [zgl; zgr; mig_node t; mig_source t; mig_dest t; zgt] ->
+    C13.Model.WF di ti -> In (Some (ind_parents t, ind_parents_offset t)) (snd (C13.Model.asdict ti)) ->
+    nind t = C13.Model.nrows ti -> 0 <= C13.Model.nrows ti ->
+    ShapeOK t.
+Proof. exact c13_backs_shape_lemma. Qed.
 
 (* (d) HISTORICAL RECORD, about the PINNED pre-fix code only (not the current model): full
    soundness failed before e4937b5 / c14733b *)
